@@ -486,6 +486,11 @@ func TestDrive(t *testing.T) {
 			dist["stop-stress"]++
 			ncli++
 		}
+		for i := 0; i < 3; i++ {
+			fmt.Fprintln(bw, preStop(prop, i))
+			dist["stop-before-attack"]++
+			ncli++
+		}
 		for i := 0; i < 6; i++ {
 			fmt.Fprintln(bw, optionLeak(prop, i, seed))
 			dist["option-goroutines"]++
